@@ -211,8 +211,22 @@ func (s *Scope) getValueGroup(name string, t reflect.Type) []reflect.Value {
 	return shuffledCopy(s.rand, items)
 }
 
+// decoratedGroupKey is the key under which the decorated values of a group
+// are stored. Like its providers and decorators, a group is identified by its
+// element type, whatever (possibly named) slice type a decorator returns it
+// as or a consumer asks for it as.
+func decoratedGroupKey(name string, t reflect.Type) key {
+	if t.Kind() == reflect.Slice {
+		t = t.Elem()
+	}
+	return key{group: name, t: t}
+}
+
 func (s *Scope) getDecoratedValueGroup(name string, t reflect.Type) (reflect.Value, bool) {
-	items, ok := s.decoratedGroups[key{group: name, t: t}]
+	items, ok := s.decoratedGroups[decoratedGroupKey(name, t)]
+	if ok && items.Type() != t && items.Type().ConvertibleTo(t) {
+		items = items.Convert(t)
+	}
 	return items, ok
 }
 
@@ -222,8 +236,7 @@ func (s *Scope) submitGroupedValue(name string, t reflect.Type, v reflect.Value)
 }
 
 func (s *Scope) submitDecoratedGroupedValue(name string, t reflect.Type, v reflect.Value) {
-	k := key{group: name, t: t}
-	s.decoratedGroups[k] = v
+	s.decoratedGroups[decoratedGroupKey(name, t)] = v
 }
 
 func (s *Scope) getValueProviders(name string, t reflect.Type) []provider {
